@@ -13,7 +13,10 @@ import (
 
 	basketapi "github.com/regen-network/regen-ledger/api/v2/regen/ecocredit/basket/v1"
 	marketapi "github.com/regen-network/regen-ledger/api/v2/regen/ecocredit/marketplace/v1"
+	baseapi "github.com/regen-network/regen-ledger/api/v2/regen/ecocredit/v1"
 	"github.com/regen-network/regen-ledger/x/data/v3"
+	"github.com/regen-network/regen-ledger/x/ecocredit/v3/base"
+	basetypes "github.com/regen-network/regen-ledger/x/ecocredit/v3/base/types/v1"
 	baskettypes "github.com/regen-network/regen-ledger/x/ecocredit/v3/basket/types/v1"
 	markettypes "github.com/regen-network/regen-ledger/x/ecocredit/v3/marketplace/types/v1"
 
@@ -43,6 +46,7 @@ func (g *Gen) register() {
 	g.add("define_resolver", g.genDefineResolver)
 	g.add("register_resolver", g.genRegisterResolver)
 	g.add("resolver_combo", g.genResolverCombo)
+	g.add("batch_combo", g.genBatchCombo)
 }
 
 // ---------- basket ----------
@@ -699,6 +703,14 @@ func (g *Gen) genBuy() *eng.Tx {
 		default:
 			qty = g.amountUpTo(q)
 		}
+		if ask.Cmp(big.NewInt(20)) <= 0 && g.chance(0.35) {
+			// unit-scale purchase: a subtotal of one to two base units (every settlement amount is then
+			// next to the truncation boundaries 0/1/2)
+			f := new(big.Rat).SetFrac(big.NewInt(int64(1000000+g.R.Intn(1000000))), new(big.Int).Mul(ask, big.NewInt(1000000)))
+			if f.Cmp(q) <= 0 {
+				qty = trimDec(ratToDec(f, 6))
+			}
+		}
 		bid := new(big.Int).Set(ask)
 		switch g.R.Intn(6) {
 		case 0:
@@ -826,11 +838,42 @@ func (g *Gen) genAllowedDenom() *eng.Tx {
 
 var FeeRates = []string{"", "0", "0.0", "0.000001", "0.01", "0.02", "0.05", "0.5", "0.333333333333333333333333333333333333", "1"}
 
+// randomRate: a fee rate in [0, 1) with 1..24 decimal places (the number of decimal places of the rate
+// decides the number of decimal places of every settlement amount before it is truncated to coins).
+func (g *Gen) randomRate() string {
+	n := 1 + g.R.Intn(24)
+	lead := g.R.Intn(n) // leading zeros after the point
+	if g.chance(0.5) && n > 2 {
+		lead = 1 + g.R.Intn(2) // a realistic rate: a few per cent, many decimals
+	}
+	b := make([]byte, n)
+	for i := range b {
+		switch {
+		case i < lead:
+			b[i] = '0'
+		case i == n-1:
+			b[i] = byte('1' + g.R.Intn(9)) // no trailing zero: exactly n decimal places
+		default:
+			b[i] = byte('0' + g.R.Intn(10))
+		}
+	}
+	return "0." + string(b)
+}
+
 func (g *Gen) genFeeParams() *eng.Tx {
 	b := FeeRates[g.R.Intn(len(FeeRates))]
 	s := FeeRates[g.R.Intn(len(FeeRates))]
+	if g.chance(0.4) {
+		b = g.randomRate()
+	}
+	if g.chance(0.4) {
+		s = g.randomRate()
+	}
 	if g.hostile() && g.chance(0.3) {
-		b = []string{"-0.1", "abc", "1.5"}[g.R.Intn(3)]
+		b = []string{"-0.1", "abc", "1.5", " 0.02", "0.02 ", " ", "+0.02", ".02", "2E-2", "0.020"}[g.R.Intn(10)]
+		if g.chance(0.5) {
+			b, s = s, b // the odd spelling in the seller rate instead
+		}
 	}
 	return tx(&markettypes.MsgGovSetFeeParams{Authority: g.govSigner(), Fees: &markettypes.FeeParams{BuyerPercentageFee: b, SellerPercentageFee: s}})
 }
@@ -944,6 +987,82 @@ func (g *Gen) genDefineResolver() *eng.Tx {
 		u = []string{"", "not a url", "://x"}[g.R.Intn(3)]
 	}
 	return tx(&data.MsgDefineResolver{Definer: g.actor(), ResolverUrl: u, Public: g.chance(0.3)})
+}
+
+// genBatchCombo: issue a batch, put some of it into a basket and take it out again in ONE transaction
+// (the batch denom is predictable from the batch sequence and the dates). Half of the time a later
+// message fails, the transaction is reverted, and — scripted follow-up — a batch of ANOTHER project is
+// issued first (it gets the rolled-back table key), then the original batch is issued again (same
+// denom, since the sequence was rolled back too, but another key), put into the basket and taken out.
+// The batch is made the oldest of the basket so that the Take really draws from it.
+func (g *Gen) genBatchCombo() *eng.Tx {
+	if len(g.V.BatchList) >= g.P.MaxBatches+20 || len(g.V.ProjectList) < 2 {
+		return nil
+	}
+	var bk *basketapi.Basket
+	for _, b := range g.V.BasketList {
+		if b.DateCriteria == nil && b.DisableAutoRetire {
+			bk = b
+			break
+		}
+	}
+	if bk == nil {
+		return nil
+	}
+	// a project whose class the basket accepts, and another project
+	var p, p2 *baseapi.Project
+	for _, x := range g.V.ProjectList {
+		c := g.V.Classes[x.ClassKey]
+		if c == nil || len(g.V.Issuers[c.Key]) == 0 {
+			continue
+		}
+		if p == nil && c.CreditTypeAbbrev == bk.CreditTypeAbbrev && g.V.BasketClasses[bk.Id][c.Id] {
+			p = x
+		} else if p2 == nil {
+			p2 = x
+		}
+	}
+	if p == nil || p2 == nil {
+		return nil
+	}
+	iss := sortedKeys(g.V.Issuers[p.ClassKey])[0]
+	iss2 := sortedKeys(g.V.Issuers[p2.ClassKey])[0]
+	g.refSeq++
+	start := time.Date(1850, 1, 1, 0, 0, 0, 0, time.UTC).AddDate(0, 0, -g.refSeq) // older than everything else
+	end := start.AddDate(1, 0, 0)
+	seq := g.V.BatchSeq[p.Key]
+	if seq == 0 {
+		seq = 1
+	}
+	denom, err := base.FormatBatchDenom(p.Id, seq, &start, &end)
+	if err != nil || g.V.BatchByDenom[denom] != nil {
+		return nil
+	}
+	create := func() sdk.Msg {
+		s, e := start, end
+		return &basetypes.MsgCreateBatch{Issuer: iss, ProjectId: p.Id, Metadata: "combo", StartDate: &s, EndDate: &e,
+			Issuance: []*basetypes.BatchIssuance{{Recipient: iss, TradableAmount: "100"}}}
+	}
+	put := func() sdk.Msg {
+		return &baskettypes.MsgPut{Owner: iss, BasketDenom: bk.BasketDenom, Credits: []*baskettypes.BasketCredit{{BatchDenom: denom, Amount: "4"}}}
+	}
+	take := func() sdk.Msg {
+		return &baskettypes.MsgTake{Owner: iss, BasketDenom: bk.BasketDenom, Amount: "4000000", RetireOnTake: false}
+	}
+	msgs := []sdk.Msg{create(), put(), take()}
+	if g.chance(0.5) {
+		msgs = append(msgs, &baskettypes.MsgTake{Owner: iss, BasketDenom: bk.BasketDenom + "x", Amount: "1"}) // unknown basket: fails
+		s2, e2 := time.Date(2019, 1, 1, 0, 0, 0, 0, time.UTC), time.Date(2019, 6, 1, 0, 0, 0, 0, time.UTC)
+		g.script = append(g.script,
+			func() *eng.Tx {
+				return &eng.Tx{Msgs: []sdk.Msg{&basetypes.MsgCreateBatch{Issuer: iss2, ProjectId: p2.Id, Metadata: "combo-other", StartDate: &s2, EndDate: &e2,
+					Issuance: []*basetypes.BatchIssuance{{Recipient: iss2, TradableAmount: "100"}}}}, Tag: "batch_combo/other-project"}
+			},
+			func() *eng.Tx { return &eng.Tx{Msgs: []sdk.Msg{create()}, Tag: "batch_combo/reissue"} },
+			func() *eng.Tx { return &eng.Tx{Msgs: []sdk.Msg{put()}, Tag: "batch_combo/put"} },
+			func() *eng.Tx { return &eng.Tx{Msgs: []sdk.Msg{take()}, Tag: "batch_combo/take"} })
+	}
+	return &eng.Tx{Msgs: msgs, Tag: "batch_combo"}
 }
 
 // genResolverCombo: a client defines a resolver and registers data to it in ONE transaction (the new
